@@ -14,10 +14,10 @@ def make_adf(e, tabs, n, create_vars=True):
     if create_vars:
         for v in range(n): e.call('obdd::Bdd::variable', [r, T(v)])
     acs = [build_shannon(e, r, tabs[s], n) for s in range(n)]
-    names = e.structs['Adf']
-    fields = {'ordering': None, 'bdd': bdd, 'ac': VecObj(acs), 'rng': new_rng_cell()}
-    adf = Struct([fields[k] for k in names])
-    return adf, Ref([adf], 0), bdd
+    # the object is created through the public constructor, exactly as the native replay binary does it
+    vc = e.call('<adf::VarContainer as Default>::default', [])
+    adf = e.call('<adf::Adf as From<(VarContainer, obdd::Bdd, Vec<bdd::Term>)>>::from', [Struct([vc, bdd, VecObj(acs)])])
+    return adf, Ref([adf], 0), adf.f[e.field('Adf', 'bdd')]
 
 
 def family_tabs(n, spec, prefix='ac'):
